@@ -227,8 +227,20 @@ impl ProgGen {
             let (s1, s2) = *t.pick(&[(8usize, 16usize), (16, 8), (4, 8), (8, 8)]);
             let cond = E::Bin(*t.pick(&[BinOp::Gt, BinOp::Lt, BinOp::Ge]), Box::new(g), Box::new(k));
             names.consts.push("ks".to_string());
-            let decl = Item::Const { dots: 0, name: "ks".to_string(), e: E::Tern(Box::new(cond), Box::new(sized_lit(v1, s1)), Box::new(sized_lit(v2, s2))), noemit: false };
-            let user = Item::Data { width: None, elems: vec![E::Var("ks".to_string())] };
+            // one in three: the constant is a BOOLEAN computed from the address, its reader picks a value by it
+            let boolean = t.chance(1, 3);
+            let (decl, user) = if boolean {
+                names.consts.pop();
+                (
+                    Item::Const { dots: 0, name: "kbool".to_string(), e: cond, noemit: false },
+                    Item::Data { width: Some(8), elems: vec![E::Tern(Box::new(E::Var("kbool".to_string())), Box::new(lit_of(0xff)), Box::new(lit_of(0x11 + v1)))] },
+                )
+            } else {
+                (
+                    Item::Const { dots: 0, name: "ks".to_string(), e: E::Tern(Box::new(cond), Box::new(sized_lit(v1, s1)), Box::new(sized_lit(v2, s2))), noemit: false },
+                    Item::Data { width: None, elems: vec![E::Var("ks".to_string())] },
+                )
+            };
             // the reader usually stands BEFORE the declaration (it then sees the value of the previous pass)
             if t.chance(3, 4) {
                 items.push(user);
@@ -237,6 +249,16 @@ impl ProgGen {
                 items.push(decl);
                 items.push(user);
             }
+        }
+
+        // v2: a constant that is a later label (+n), declared somewhere BEHIND its first uses: operands naming it
+        // settle one pass later than operands naming the label itself
+        let mut planned_kfwd: Option<Item> = None;
+        if crate::engine::gen_version() >= 2 && self.family_bias && !names.globals.is_empty() && t.chance(1, 3) {
+            let g = E::Var(t.pick(&names.globals).clone());
+            let e = if t.flip() { g } else { E::Bin(BinOp::Add, Box::new(g), Box::new(lit_of(t.draw(3) as u64))) };
+            names.consts.push("kfwd".to_string());
+            planned_kfwd = Some(Item::Const { dots: 0, name: "kfwd".to_string(), e, noemit: false });
         }
 
         // banks
@@ -484,6 +506,13 @@ impl ProgGen {
                 let (_, l) = pending_locals.remove(pos);
                 items.push(Item::Label { dots: 1, name: l });
             }
+        }
+        if let Some(decl) = planned_kfwd {
+            // a global constant resets the scope: it may only stand right in front of a global label, or at the end
+            let mut spots: Vec<usize> = (0..items.len()).filter(|&i| matches!(items[i], Item::Label { dots: 0, .. })).collect();
+            spots.push(items.len());
+            let at = spots[t.below(spots.len())];
+            items.insert(at, decl);
         }
         info.forward_refs = true;
         (Program { isa, items }, info)
